@@ -12,6 +12,8 @@ package nyctalerts
 //@ pure func groupOK(a *gtfsrt.Alert) bool = a != nil && (forall k int :: 0 <= k && k < len(a.InformedEntity) ==> a.InformedEntity[k] != nil && a.InformedEntity[k].StopId != nil) && (forall x int, y int :: 0 <= x && x < y && y < len(a.InformedEntity) ==> *a.InformedEntity[x].StopId != *a.InformedEntity[y].StopId)
 //@ pure func groupsOK(e extension) bool = e.elevatorAlerts != nil && (forall g string :: has(e.elevatorAlerts, g) ==> e.elevatorAlerts[g] != nil && (cap(e.elevatorAlerts[g].InformedEntity) == 0 || obj(e.elevatorAlerts[g].InformedEntity) > obj(e.elevatorAlerts))) && (forall g string, k int :: has(e.elevatorAlerts, g) && 0 <= k && k < len(e.elevatorAlerts[g].InformedEntity) ==> e.elevatorAlerts[g].InformedEntity[k] != nil && e.elevatorAlerts[g].InformedEntity[k].StopId != nil)
 //@ pure func distinctStops(a *gtfsrt.Alert) bool = forall x int, y int :: 0 <= x && x < y && y < len(a.InformedEntity) ==> *a.InformedEntity[x].StopId != *a.InformedEntity[y].StopId
+// the entity id string cell is not one of the stop id cells a group owns (true in ParseRealtime by allocation order)
+//@ pure func idNotOwned(e extension, ID *string) bool = forall g string, k int :: has(e.elevatorAlerts, g) && 0 <= k && k < len(e.elevatorAlerts[g].InformedEntity) ==> e.elevatorAlerts[g].InformedEntity[k].StopId != ID
 //@ pure func informsStop(a *gtfsrt.Alert, id string) bool = exists k int :: 0 <= k && k < len(a.InformedEntity) && *a.InformedEntity[k].StopId == id
 
 //@ func Extension
@@ -21,7 +23,9 @@ package nyctalerts
 
 //@ func (extension).NewParse
 //@   props C17 C06 C18 C05
-//@   ensures [fresh-state-per-parse] result != nil
+//@   ensures [fresh-state-per-parse] isType(result, "extensions/nyctalerts.extension") && fresh(asType(result, "extensions/nyctalerts.extension").elevatorAlerts) && asType(result, "extensions/nyctalerts.extension").elevatorAlerts != nil
+//@   ensures [no-groups-yet] forall g string :: !has(asType(result, "extensions/nyctalerts.extension").elevatorAlerts, g)
+//@   ensures [same-options] asType(result, "extensions/nyctalerts.extension").opts == e.opts
 //@   assigns nothing
 
 // C17: priority = the integer after the last ':' of the Mercury sort order
@@ -39,14 +43,14 @@ package nyctalerts
 //@ func (extension).updateElevatorAlert
 //@   props C17 C05 C06
 //@   requires ID != nil && alert != nil && groupsOK(e)
-//@   requires [id-not-owned-by-a-group] forall g string, k int :: has(e.elevatorAlerts, g) && 0 <= k && k < len(e.elevatorAlerts[g].InformedEntity) ==> e.elevatorAlerts[g].InformedEntity[k].StopId != ID
 //@   ensures [not-an-elevator-alert-untouched] !elevatorID(old(*ID)) ==> !result && *ID == old(*ID) && *alert == old(*alert) && groupsOK(e)
 //@   ensures [cause-and-effect] elevatorID(old(*ID)) ==> alert.Cause != nil && *alert.Cause == 9 && alert.Effect != nil && *alert.Effect == 11
 //@   ensures [group-id-by-policy] elevatorID(old(*ID)) ==> *ID == groupID(e.opts.ElevatorAlertsDeduplicationPolicy, old(*ID))
 //@   ensures [first-member-opens-the-group] elevatorID(old(*ID)) && !old(has(e.elevatorAlerts, groupID(e.opts.ElevatorAlertsDeduplicationPolicy, *ID))) ==> !result && e.elevatorAlerts[*ID] == alert && len(alert.InformedEntity) == 1 && *alert.InformedEntity[0].StopId == informedID(e.opts.ElevatorAlertsInformUsingStationIDs, old(*ID))
 //@   ensures [later-members-join-it] elevatorID(old(*ID)) && old(has(e.elevatorAlerts, groupID(e.opts.ElevatorAlertsDeduplicationPolicy, *ID))) ==> result && e.elevatorAlerts[*ID] == old(e.elevatorAlerts[groupID(e.opts.ElevatorAlertsDeduplicationPolicy, *ID)]) && informsStop(e.elevatorAlerts[*ID], informedID(e.opts.ElevatorAlertsInformUsingStationIDs, old(*ID)))
 //@   ensures [groups-stay-well-formed] groupsOK(e)
-//@   ensures [no-stop-listed-twice] elevatorID(old(*ID)) && (old(has(e.elevatorAlerts, groupID(e.opts.ElevatorAlertsDeduplicationPolicy, *ID))) ==> old(distinctStops(e.elevatorAlerts[groupID(e.opts.ElevatorAlertsDeduplicationPolicy, *ID)]))) ==> distinctStops(e.elevatorAlerts[*ID])
+//@   ensures [groups-are-feed-alerts] forall g string :: has(e.elevatorAlerts, g) ==> (old(has(e.elevatorAlerts, g)) && e.elevatorAlerts[g] == old(e.elevatorAlerts[g])) || e.elevatorAlerts[g] == alert
+//@   ensures [no-stop-listed-twice] old(idNotOwned(e, ID)) && elevatorID(old(*ID)) && (old(has(e.elevatorAlerts, groupID(e.opts.ElevatorAlertsDeduplicationPolicy, *ID))) ==> old(distinctStops(e.elevatorAlerts[groupID(e.opts.ElevatorAlertsDeduplicationPolicy, *ID)]))) ==> distinctStops(e.elevatorAlerts[*ID])
 //@   ensures [only-this-members-stop-is-added] elevatorID(old(*ID)) && old(has(e.elevatorAlerts, groupID(e.opts.ElevatorAlertsDeduplicationPolicy, *ID))) ==> len(e.elevatorAlerts[*ID].InformedEntity) <= old(len(e.elevatorAlerts[groupID(e.opts.ElevatorAlertsDeduplicationPolicy, *ID)].InformedEntity)) + 1 && (forall k int :: 0 <= k && k < old(len(e.elevatorAlerts[groupID(e.opts.ElevatorAlertsDeduplicationPolicy, *ID)].InformedEntity)) ==> e.elevatorAlerts[*ID].InformedEntity[k] == old(e.elevatorAlerts[groupID(e.opts.ElevatorAlertsDeduplicationPolicy, *ID)].InformedEntity[k]))
 //@   assigns *ID, alert.Cause, alert.Effect, alert.InformedEntity, eachval(e.elevatorAlerts).InformedEntity, entries(e.elevatorAlerts), since(e.elevatorAlerts, "*gtfsrt.EntitySelector")
 //@   loop 1 invariant deduplicatedAlert != nil && (forall j int :: 0 <= j && j < $i ==> *deduplicatedAlert.InformedEntity[j].StopId != informedEntityID)
@@ -69,7 +73,8 @@ package nyctalerts
 //@ func (extension).UpdateAlert
 //@   props C17 C05 C06
 //@   requires ID != nil && alert != nil && groupsOK(e)
-//@   requires [id-not-owned-by-a-group] forall g string, k int :: has(e.elevatorAlerts, g) && 0 <= k && k < len(e.elevatorAlerts[g].InformedEntity) ==> e.elevatorAlerts[g].InformedEntity[k].StopId != ID
+//@   ensures [groups-stay-well-formed] groupsOK(e)
+//@   ensures [groups-are-feed-alerts] forall g string :: has(e.elevatorAlerts, g) ==> (old(has(e.elevatorAlerts, g)) && e.elevatorAlerts[g] == old(e.elevatorAlerts[g])) || e.elevatorAlerts[g] == alert
 //@   ensures [cause-planned-work] !result && !elevatorID(old(*ID)) && hasPrefix(old(*ID), "lmm:planned_work") ==> alert.Cause != nil && *alert.Cause == gtfsrt.Alert_MAINTENANCE
 //@   ensures [cause-alert] !result && !elevatorID(old(*ID)) && !hasPrefix(old(*ID), "lmm:planned_work") && hasPrefix(old(*ID), "lmm:alert") ==> alert.Cause != nil && *alert.Cause == gtfsrt.Alert_TECHNICAL_PROBLEM
 //@   ensures [cause-otherwise-kept] !result && !elevatorID(old(*ID)) && !hasPrefix(old(*ID), "lmm:planned_work") && !hasPrefix(old(*ID), "lmm:alert") ==> alert.Cause != nil && *alert.Cause == old(causeOf(alert))
@@ -77,6 +82,8 @@ package nyctalerts
 //@   ensures [dropped-only-for-a-reason] result && !elevatorID(old(*ID)) ==> e.opts.SkipTimetabledNoServiceAlerts && (exists k int :: 0 <= k && k < len(alert.InformedEntity) && timetabledNoService(alert.InformedEntity[k]))
 //@   ensures [no-metadata-unless-asked] !e.opts.AddNyctMetadata && !elevatorID(old(*ID)) ==> alert.DescriptionText == old(alert.DescriptionText) && (alert.DescriptionText != nil ==> *alert.DescriptionText == old(*alert.DescriptionText))
 //@   ensures [no-metadata-without-mercury-data] !hasExt(alert, "E_MercuryAlert") && !elevatorID(old(*ID)) ==> alert.DescriptionText == old(alert.DescriptionText) && (alert.DescriptionText != nil ==> *alert.DescriptionText == old(*alert.DescriptionText))
+//@   ensures [description-fresh-or-kept] alert.DescriptionText == old(alert.DescriptionText) || fresh(alert.DescriptionText)
+//@   ensures [translations-fresh-or-same-array] alert.DescriptionText != nil ==> fresh(alert.DescriptionText.Translation) || (alert.DescriptionText == old(alert.DescriptionText) && obj(alert.DescriptionText.Translation) == old(obj(alert.DescriptionText.Translation)))
 //@   ensures [informed-entities-untouched] !elevatorID(old(*ID)) ==> alert.InformedEntity == old(alert.InformedEntity) && *ID == old(*ID)
 //@   assigns *ID, alert.Cause, alert.Effect, alert.InformedEntity, alert.DescriptionText, alert.DescriptionText.Translation, elems(alert.DescriptionText.Translation), eachval(e.elevatorAlerts).InformedEntity, entries(e.elevatorAlerts), since(e.elevatorAlerts, "*gtfsrt.EntitySelector")
 //@   loop 1 invariant alert != nil && ID != nil
